@@ -216,6 +216,8 @@ VALUES = {
     'b0': lambda: b'', 'b1': lambda: b'z', 'b64k': lambda: b'k' * 65536, 'b64k1': lambda: b'k' * 65537,
     'many': lambda: [{'i': i} for i in range(120000)],       # takes the receiving side a while to recreate
     'slowobj': lambda: [SlowValue(3), 'tail'],
+    # values whose types are picklable only through a copyreg registration
+    'regex': lambda: __import__('re').compile('a+b', 2), 'union': lambda: [int | str, complex(1, 2)],
     'b208k1': lambda: b'q' * 212993, 'b1m': lambda: b'm' * (1 << 20), 'b4m': lambda: b'M' * (4 << 20),
 }
 EXCS = {
